@@ -113,6 +113,8 @@ def exec_rules(ctx, prog):
             ok = ok and ca[0] == fs("NULL")
         else:
             ok = ok and ca[0] != fs("NULL") and any(isinstance(a, tuple) and a[0] == "addr" and "environ" in str(a) for a in ca[0])
+            if extra == "null" and envv is None:
+                ok = True       # extending by nothing: leaving the inherited environment in place is the same thing
         ctx.ob("C03.P2", "process_start: execvp " + case + " environment", "at exec `environ` is the array built (in the parent, before fork) "
                "from the parent's environment - or nothing, for the empty behaviour - followed by the extra entries", ok,
                {"environ": show(envv), "concat_args": [show(x) for x in ca] if ca else None}, nontrivial=True)
